@@ -308,16 +308,17 @@ def gen(tier, rng, shard, nshards):
     half = nshards // 2
     config = "plain" if shard < half else "optional-modules-imported"
     idx, tot = (shard, half) if shard < half else (shard - half, nshards - half)
+    j = 0
+    for fn in ("inv", "solve", "pinv", "slogdet", "diag", "trace", "exp", "log", "sqrt", "pow", "pow_neg1", "apply_unary", "eig", "eigmax", "eigmin", "svd"):
+        for a in (OMIT, "Auto"):
+            for annot in (None, "PSD", "SelfAdjoint"):
+                j += 1
+                if j % tot == idx:
+                    yield {"fn": fn, "kind": "BigGeneric", "shape": "square", "dt": "f8", "annot": annot, "alg": a, "log_alg": a, "trace_alg": OMIT, "k": 2 if fn != "diag" else 0,
+                           "which": "LM", "big": True, "config": config}
     for i, t in enumerate(lattice(config, tier)):
         if i % tot == idx:
             yield dict(t, config=config)
-    if idx == 0:
-        for fn in ("inv", "solve", "pinv", "slogdet", "logdet", "diag", "trace", "exp", "log", "sqrt", "isqrt", "pow", "pow_neg1", "apply_unary", "eig", "eigmax",
-                   "eigmin", "svd"):
-            for a in (OMIT, "Auto"):
-                for annot in (None, "PSD", "SelfAdjoint"):
-                    yield {"fn": fn, "kind": "BigGeneric", "shape": "square", "dt": "f8", "annot": annot, "alg": a, "log_alg": a, "trace_alg": OMIT, "k": 2 if fn != "diag" else 0,
-                           "which": "LM", "big": True, "config": config}
 
 
 _STATE = {}
